@@ -203,3 +203,92 @@ def abort_key(r):
 
 def mismatch_key(r):
     return "%s|%s" % (owner(r["what"], r["cfg"]), r["what"])
+
+
+# ---------------------------------------------------------------------------- trace validation of parse events
+def run_trace_family(res, scratch, tag, cfg_text, matrix, builds, props, libs=("c",), codemap="ascii",
+                     timeout=1500, max_cases=None, pair_cost=False, chunk=4000, classify=None):
+    """TLC enumerates the family (vectors carry the grammar only), the harness parses every input and
+    records one trace line per parse, and TLC validates the lines against ParseTrace.tla.  A rejected
+    line is a violation of each property in `props` named by a violated clause."""
+    import concurrent.futures as cf
+    t = run_tlc(scratch, "MCGram", cfg_text, tag, timeout=timeout)
+    if t["status"] != "ok":
+        raise Infra("TLC %s: %s\n%s" % (tag, t["status"], t["tail"][-3000:]))
+    res.add_tlc(t)
+    code = CODEMAPS[codemap]
+    blocks, vecs = [], {}
+    for vec in tlc_vectors(t["out"]):
+        vec["trees_emitted"] = False
+        b = blocks_from_vector(vec, matrix, codemap=codemap, mems=(0, 1), want_trees=False, max_cases=max_cases)
+        if b is None:
+            continue
+        vecs[b[0][2:]] = vec
+        blocks.append(b)
+    lines = []
+    for lib in libs:
+        for bdir in builds:
+            binary = os.path.join(bdir, "yv_replay" + ("xx" if lib == "c++" else ""))
+            recs, st = run_harness(binary, blocks, args=("-t",))
+            for r in recs:
+                if r.get("e") == "Abort":
+                    blk = r.get("block")
+                    res.violation(abort_key(r), dict(r, vector=vecs.get(blk[0][2:] if blk else None)))
+                if r.get("k") != "parse":
+                    continue
+                vec = vecs.get(r["g"])
+                if vec is None:
+                    continue
+                terms = sorted({s for rl in vec["rules"] for s in rl["r"] if 0 < s < 10} | {1, 2})
+                c2n = {code(k): k for k in terms}
+                try:
+                    trees = [parse_canon(s, c2n) for s in r["trees"]]
+                except Exception as ex:
+                    res.violation("C12|unparsable tree from harness", dict(r, err=str(ex)))
+                    continue
+                lines.append({"id": "%s/%s/%d,%d,%d,%d,%d/%s" % (r["g"], r["w"], r["la"], r["one"], r["cost"], r["rec"], r["match"], lib),
+                              "terms": terms, "rules": vec["rules"], "sa": 0 if vec["ds"] else 1,
+                              "w": [c2n.get(c, -99) for c in r["toks"]], "la": r["la"], "one": r["one"], "cost": r["cost"],
+                              "rec": r["rec"], "match": r["match"], "rc": r["rc"], "root": r["root"], "amb": r["amb"],
+                              "mp1": r.get("mp1", 0), "mp2": r.get("mp2", 0),
+                              "calls": r["calls"], "trees": trees, "over": r["over"], "_g": r["g"]})
+    if pair_cost:
+        # attach the all-parses, cost-off result of the same (grammar, input, la, rec, match) to the cost-on lines
+        base = {}
+        for ln in lines:
+            if ln["cost"] == 0 and ln["one"] == 0 and ln["over"] == 0:
+                base[(ln["_g"], tuple(ln["w"]), ln["la"], ln["rec"], ln["match"], ln["id"].rsplit("/", 1)[1])] = ln["trees"]
+        for ln in lines:
+            if ln["cost"] == 1:
+                b = base.get((ln["_g"], tuple(ln["w"]), ln["la"], ln["rec"], ln["match"], ln["id"].rsplit("/", 1)[1]))
+                if b is not None:
+                    ln["trees0"] = b
+    chunks = [lines[i:i + chunk] for i in range(0, len(lines), chunk)]
+
+    def work(args):
+        i, ch = args
+        return validate_trace(scratch, "ParseTrace", [{k: v for k, v in ln.items() if k != "_g"} for ln in ch], "%s_tr%d" % (tag, i), timeout=timeout), ch
+    nrej = 0
+    with cf.ThreadPoolExecutor(max_workers=max(1, NCPU // 2)) as ex:
+        for (ok, rej, tt), ch in ex.map(work, list(enumerate(chunks))):
+            res.cov["states"] += tt.get("distinct", 0)
+            res.cov["transitions"] += tt.get("states", 0)
+            if not ok:
+                raise Infra("trace validation did not finish (%s): %s" % (tag, tt["tail"][-2500:]))
+            res.cov["traces_validated_against_impl"] += len(ch)
+            for (lno, lid, reasons) in rej:
+                ln = ch[lno - 1]
+                for reason in reasons:
+                    if any(p in reason.split(":")[0] for p in props):
+                        nrej += 1
+                        rec = {"line": {k: v for k, v in ln.items() if k != "_g"}, "reason": reason}
+                        key = classify(rec) if classify else None
+                        res.violation(key or ("trace|" + reason), rec)
+    res.cov["evaluations"] += len(lines)
+    res.notes.setdefault("trace_families", []).append({"tag": tag, "grammars": len(blocks), "trace_lines": len(lines), "rejected_clauses": nrej,
+                                                       "tlc_distinct_states": t["distinct"]})
+    if lines and len(res.cov["samples"]) < 4:
+        s = dict(lines[len(lines) // 2])
+        s.pop("_g", None)
+        res.cov["samples"].append({"trace_line": s})
+    return lines
